@@ -894,6 +894,10 @@ static int64_t btcp_get_cnt(struct xcm_socket *conn_s, enum xcm_tp_cnt cnt)
 					   void *context, void *value,	\
 					   size_t capacity)		\
     {									\
+	if (capacity < sizeof(int64_t)) {				\
+	    errno = EOVERFLOW;						\
+	    return -1;							\
+	}								\
 	return tcp_get_ ## field_name ##_attr(TOBTCP(s)->fd, value);	\
     }
 
@@ -920,6 +924,10 @@ GEN_TCP_FIELD_GET(segs_out)
     {									\
 	struct btcp_socket *bts = TOBTCP(s);				\
 									\
+	if (capacity < sizeof(attr_type)) {				\
+	    errno = EOVERFLOW;						\
+	    return -1;							\
+	}								\
 	memcpy(value, &bts->conn.tcp_opts.attr_name, sizeof(attr_type)); \
 									\
 	return sizeof(attr_type);					\
@@ -1086,6 +1094,10 @@ static int get_scope_attr(struct xcm_socket *s, void *context, void *value,
     int64_t scope = TOBTCP(s)->scope;
 
     if (scope >= 0) {
+	if (capacity < sizeof(int64_t)) {
+	    errno = EOVERFLOW;
+	    return -1;
+	}
 	memcpy(value, &(TOBTCP(s)->scope), sizeof(int64_t));
 	return sizeof(int64_t);
     } else { /* IPv4 */
